@@ -47,6 +47,8 @@ def main():
            expect_violation="Determinacy")
     ck.tlc("CallHistory", "CallHistory_onerror.cfg", count=False,
            expect_violation="Determinacy")
+    ck.tlc("CallHistory", "CallHistory_free.cfg", count=False,
+           expect_violation="Determinacy")
 
     def quiet(fn, *a, **kw):
         with contextlib.redirect_stdout(io.StringIO()):
@@ -207,6 +209,14 @@ def main():
                 e = qr.qm.EvolutionSuperOperator(self.ta, self.HHn, self.RTn)
                 quiet(e.calculate)
                 return numpy.array(e.data)
+            if name == "heom_propagate_free":
+                r = quiet(self.kprop.propagate, self.rho0,
+                          free_hierarchy=True)
+                return numpy.array([numpy.array(r.data),
+                                    numpy.array(self.hy.ado[:r.data.shape[0]]
+                                                if self.hy.ado.shape[0] >=
+                                                r.data.shape[0] else
+                                                r.data)][:1])
             if name == "heom_propagate":
                 r = quiet(self.kprop.propagate, self.rho0)
                 return numpy.array(r.data)
@@ -249,6 +259,8 @@ def main():
     canon = [
         [("rdm_propagate", 1), ("rdm_propagate", 4), ("rdm_propagate", 1)],
         [("heom_propagate", None), ("heom_propagate", None)],
+        [("heom_propagate_free", None), ("heom_propagate", None),
+         ("heom_propagate_free", None), ("heom_propagate", None)],
         [("build_tensor", True), ("build_tensor", False),
          ("rdm_propagate", 1)],
         [("eso_calculate", None), ("rdm_propagate", 1),
@@ -279,6 +291,8 @@ def main():
                 seq.append(("build_tensor", bool(a[0])))
             elif act == "HeomPropagate":
                 seq.append(("heom_propagate", None))
+            elif act == "HeomPropagateFree":
+                seq.append(("heom_propagate_free", None))
             elif act == "NefPropagate":
                 seq.append(("nef_propagate", a[0]))
             elif act == "RDMPropagateRaises":
